@@ -52,6 +52,9 @@ type rig struct {
 	UDPSocks   []*rigUDPConn
 	TrafficVeto func(n int, id string, tx, rx uint64) bool // n = 1-based LogTraffic call; true = veto
 	trafficN   int
+	// TCPErrorGate: a slow event logger. When set and it returns a predicate for reqAddr, the
+	// server's TCPError call for that request blocks until the predicate holds.
+	TCPErrorGate func(reqAddr string) func() bool
 	Online     map[string]int
 	serveDone  bool
 	nclients   int
@@ -159,6 +162,11 @@ func (l rigEventLogger) TCPRequest(addr net.Addr, id, reqAddr string) {
 }
 func (l rigEventLogger) TCPError(addr net.Addr, id, reqAddr string, err error) {
 	l.r.ev(rigEvent{Kind: "tcperr", Conn: addr.String(), A: id, B: reqAddr, OK: err == nil})
+	if l.r.TCPErrorGate != nil {
+		if pred := l.r.TCPErrorGate(reqAddr); pred != nil {
+			l.r.e.Point("env", pred, "slow event logger")
+		}
+	}
 }
 func (l rigEventLogger) UDPRequest(addr net.Addr, id string, sessionID uint32, reqAddr string) {
 	l.r.ev(rigEvent{Kind: "udpreq", Conn: addr.String(), A: id, B: reqAddr, N: uint64(sessionID)})
